@@ -60,6 +60,9 @@ struct PagePlan {
     /// the request comes at consistency ONE (the DowngradingConsistency policy's retry at
     /// the consistency it chose saves the stream).
     sick: Option<(usize, u8)>,
+    /// The table gained a column after the statement was prepared: every page comes with
+    /// three columns (and, unless the client asks the node to leave it out, their metadata).
+    widened: bool,
 }
 
 #[derive(Debug, Clone)]
@@ -219,11 +222,17 @@ impl Script for C07Script {
             _ => {}
         }
         let start: usize = plan.sizes[..j].iter().sum();
-        let rows: Vec<Vec<Cell>> = (start..start + plan.sizes[j]).map(|i| row(m, i)).collect();
-        let cols = vec![
+        let mut rows: Vec<Vec<Cell>> = (start..start + plan.sizes[j]).map(|i| row(m, i)).collect();
+        let mut cols = vec![
             col("ks1", "t1", "i", CType::BigInt),
             col("ks1", "t1", "t", CType::Text),
         ];
+        if plan.widened {
+            cols.push(col("ks1", "t1", "added", CType::Int));
+            for r in rows.iter_mut() {
+                r.push(Cell::Int(7));
+            }
+        }
         let last = j + 1 == plan.sizes.len();
         if plan.constant_state {
             self.delivered.insert(m, j + 1);
@@ -374,6 +383,7 @@ fn draw_page_plan(slow_allowed: bool) -> PagePlan {
         sizes,
         states,
         sick: None,
+        widened: false,
         fault_permille: [0, 0, 100, 300][tape::choose("c07:fault_rate", 4) as usize],
         fatal_allowed: tape::chance("c07:fatal_allowed", 1, 2),
         slow_allowed,
@@ -505,6 +515,18 @@ async fn main(plan: Plan) -> Outcome {
         };
         let use_prepared = prepared.is_some() && tape::chance("c07:prepared", 1, 2);
         manual_total += (consumer == 3) as u64;
+        // 1 in 6 prepared queries: the table has gained a column since the statement was
+        // prepared; the rows are read as dynamic rows (first column checked).
+        let widened = use_prepared && tape::chance("c07:widened", 1, 6);
+        if widened {
+            let mut w = world::world();
+            let mut s = w.script.take().unwrap();
+            if let Some(p) = s.as_any().downcast_mut::<C07Script>().unwrap().plans.get_mut(&m) {
+                p.widened = true;
+            }
+            w.script = Some(s);
+            out.count("queries_on_a_widened_table", 1);
+        }
         let mut seen: Vec<i64> = Vec::new();
         let mut error: Option<String> = None;
         let mut ended = false;
@@ -547,21 +569,41 @@ async fn main(plan: Plan) -> Outcome {
                             return;
                         }
                     };
-                    match rows.rows::<(i64, String)>() {
-                        Ok(it) => {
-                            for r in it {
-                                match r {
-                                    Ok((i, _t)) => seen.push(i),
-                                    Err(e) => {
-                                        error = Some(format!("row: {e}"));
-                                        return;
+                    if widened {
+                        match rows.rows::<scylla::value::Row>() {
+                            Ok(it) => {
+                                for r in it {
+                                    match r.map(|r| r.columns.first().cloned().flatten()) {
+                                        Ok(Some(scylla::value::CqlValue::BigInt(i))) => seen.push(i),
+                                        other => {
+                                            error = Some(format!("row: {other:?}").chars().take(100).collect());
+                                            return;
+                                        }
                                     }
                                 }
                             }
+                            Err(e) => {
+                                error = Some(format!("type check: {e}"));
+                                return;
+                            }
                         }
-                        Err(e) => {
-                            error = Some(format!("type check: {e}"));
-                            return;
+                    } else {
+                        match rows.rows::<(i64, String)>() {
+                            Ok(it) => {
+                                for r in it {
+                                    match r {
+                                        Ok((i, _t)) => seen.push(i),
+                                        Err(e) => {
+                                            error = Some(format!("row: {e}"));
+                                            return;
+                                        }
+                                    }
+                                }
+                            }
+                            Err(e) => {
+                                error = Some(format!("type check: {e}"));
+                                return;
+                            }
                         }
                     }
                     match next {
@@ -597,11 +639,29 @@ async fn main(plan: Plan) -> Outcome {
                     return;
                 }
             };
-            let mut stream = match pager.rows_stream::<(i64, String)>() {
-                Ok(s) => s,
-                Err(e) => {
-                    error = Some(format!("type check: {e}"));
-                    return;
+            // (A widened table is read as dynamic rows; the first column is what counts.)
+            let typed = if widened { None } else { Some(()) };
+            let mut stream: std::pin::Pin<Box<dyn futures::Stream<Item = Result<(i64, String), String>>>> = if typed.is_some() {
+                match pager.rows_stream::<(i64, String)>() {
+                    Ok(s) => Box::pin(s.map(|r| r.map_err(|e| e.to_string()))),
+                    Err(e) => {
+                        error = Some(format!("type check: {e}"));
+                        return;
+                    }
+                }
+            } else {
+                match pager.rows_stream::<scylla::value::Row>() {
+                    Ok(s) => Box::pin(s.map(|r| match r {
+                        Ok(row) => match row.columns.first().cloned().flatten() {
+                            Some(scylla::value::CqlValue::BigInt(i)) => Ok((i, String::new())),
+                            other => Err(format!("first column: {other:?}")),
+                        },
+                        Err(e) => Err(e.to_string()),
+                    })),
+                    Err(e) => {
+                        error = Some(format!("type check: {e}"));
+                        return;
+                    }
                 }
             };
             loop {
@@ -801,10 +861,16 @@ async fn main(plan: Plan) -> Outcome {
     // leave a silently truncated peer list behind - a refresh that reports success has
     // published every node.
     if plan.system_page_rows > 0 && plan.nodes >= 3 && tape::chance("c07:control_pager_reset", 1, 3) {
-        world::world().cluster.reset_on_peers_page = Some(tape::choose("c07:control_pager_reset_page", 2) as u32);
+        // system.peers is slow in this phase, so that the other reads of the fetch are over
+        // when the reset comes - on the last of its later pages (1 in 2) or an earlier one.
+        let later_pages = ((plan.nodes - 1).div_ceil(plan.system_page_rows)).saturating_sub(1).max(1) as u64;
+        let nth = if tape::chance("c07:control_pager_reset_last", 1, 2) { later_pages - 1 } else { tape::choose("c07:control_pager_reset_page", later_pages) };
+        world::world().cluster.system_peers_extra_delay = 100 * MS;
+        world::world().cluster.reset_on_peers_page = Some(nth as u32);
         let r = tokio::time::timeout(Duration::from_secs(180), session.refresh_metadata()).await;
         let fired = world::world().cluster.reset_on_peers_page.is_none();
         world::world().cluster.reset_on_peers_page = None;
+        world::world().cluster.system_peers_extra_delay = 0;
         out.count("control_pager_reset_phases", fired as u64);
         match r {
             Err(_) => out.violation("c07.hang", "refresh_metadata() did not return within 180 virtual s after the control connection was reset in the middle of paging system.peers".into()),
